@@ -1,15 +1,22 @@
 #!/bin/bash
-# Build the extracted C14 interpreter: coq/X86/_build/c14driver (needs Extract.vo => x86model.ml in _build/).
+# Build the extracted C14 interpreter: coq/X86/_build/c14driver.
+# Extract.vo (built by `make`) writes _build/x86model.ml; this script only re-extracts when that file is stale.
 set -e
 cd "$(dirname "$0")"
 mkdir -p _build
-if [ ! -f _build/x86model.ml ] || [ Extract.v -nt _build/x86model.ml ] || [ Gen_X86Instrs.v -nt _build/x86model.ml ] \
-   || [ Gen_X86Probes.v -nt _build/x86model.ml ] || [ Model.v -nt _build/x86model.ml ]; then
+stale=0
+for f in Extract.v Gen_X86Instrs.v Gen_X86Probes.v Model.v Spec.v; do
+  [ -f _build/x86model.ml ] && [ ! $f -nt _build/x86model.ml ] || stale=1
+done
+if [ $stale = 1 ]; then
   for f in Model Gen_X86Instrs Gen_X86Probes Spec; do
     [ -f $f.vo ] && [ ! $f.v -nt $f.vo ] || timeout 300 coqc -Q . X86 $f.v
   done
   timeout 300 coqc -Q . X86 Extract.v >/dev/null
 fi
+if [ -x _build/c14driver ] && [ ! _build/x86model.ml -nt _build/c14driver ] && [ ! driver.ml -nt _build/c14driver ]; then
+  exit 0
+fi
 cp driver.ml _build/c14driver.ml
 cd _build
-timeout 300 ocamlfind ocamlopt -w -a -package str x86model.mli x86model.ml c14driver.ml -o c14driver
+timeout 600 ocamlfind ocamlopt -w -a -package str x86model.mli x86model.ml c14driver.ml -o c14driver
